@@ -427,7 +427,7 @@ def f():
 ''', ['f()'])
 
 
-case('helper that mutates its **kw is left alone (the callee gets a copy of the mapping)', '''
+case('helper that mutates its **kw gets its own copy of the mapping', '''
 class K(object):
     def _bind(self, app, **kwargs):
         kwargs.setdefault('x', 1)
@@ -437,7 +437,7 @@ class K(object):
         return r, sorted(kwargs.items())
 def f(**kw):
     return K().run('A', **kw)
-''', ['f()', 'f(x=5, y=2)'], expect_inlined=False)
+''', ['f()', 'f(x=5, y=2)'])
 
 case('helper that only passes **kw on', '''
 def target(app, **kw):
@@ -842,6 +842,67 @@ def f(x):
     q = _Q.build(x)
     return p.a, p.b, q.b, _Q2.make(x).b
 ''', ['f(1)'], expect_inlined=False)
+
+case('for over a one-loop generator method', '''
+class App(object):
+    def __init__(self, routes):
+        self.routes = routes
+    def _iter_matches(self, path, base):
+        wanted = path.strip('/')
+        for name, methods in self.routes:
+            if name != wanted and name != '*':
+                continue
+            params = dict(base, name=name)
+            yield name, methods, params
+    def dispatch(self, path, method):
+        seen = []
+        for route, methods, params in self._iter_matches(path, {'k': 1}):
+            seen.append(route)
+            if method not in methods:
+                continue
+            if route == '*':
+                break
+            return ('hit', route, sorted(params.items()), seen)
+        return ('miss', seen)
+def f(path, method):
+    return App([('a', 'GP'), ('b', 'G'), ('*', 'GP'), ('a', 'P')]).dispatch(path, method)
+''', ['f("/a", "G")', 'f("/a", "X")', 'f("/b", "P")', 'f("/zz", "G")'])
+
+case('generator with code behind its loop: left alone', '''
+log = []
+def _gen(xs):
+    for x in xs:
+        yield x
+    log.append('done')
+def f(xs):
+    out = []
+    for x in _gen(xs):
+        if x == 2:
+            break
+        out.append(x)
+    return out, list(log)
+''', ['f([1, 2, 3])', 'f([1])'], expect_inlined=False)
+
+case('helper that consumes its **kw', '''
+class R(object):
+    def __init__(self):
+        self.res = {'r': 1}
+    def _make(self, request, overrides, **extra):
+        d = {'request': request}
+        d.update(extra)
+        d.update(self.res)
+        d.update(overrides)
+        extra['seen'] = True
+        return d
+    def execute(self, request, **kwargs):
+        return sorted(self._make(request, kwargs).items())
+    def execute_error(self, request, _error, **kwargs):
+        more = {'z': 26}
+        return sorted(self._make(request, kwargs, _error=_error).items()), sorted(self._make(request, kwargs, **more).items()), more
+def f():
+    r = R()
+    return r.execute('q', a=1), r.execute_error('q', 'E', b=2)
+''', ['f()'])
 
 
 def run_case(name, src, calls, expect_inlined):
